@@ -195,6 +195,12 @@ def run_dml(case, ctx: Ctx) -> None:
                     raise InvalidCase()
 
                 o = run(cur, sql)
+                if not o.ok and o.etype.endswith("InternalException"):
+                    # an assertion failure inside the engine (seen for predicates that fold to constant FALSE around BETWEEN): neither
+                    # fakesnow's translation nor the property; the instance is unusable afterwards
+                    ctx.cls("engine-internal-error")
+                    ctx.excluded += 1
+                    return
                 if not o.ok:
                     ctx.fail(f"C04|{label}|raises|{o.etype}", f"{sql}: {o}")
                     return
